@@ -3,6 +3,7 @@
 package proxy
 
 import (
+	stdjson "encoding/json"
 	"fmt"
 	"os"
 	"runtime"
@@ -18,7 +19,21 @@ func TestVerifDebugC10(t *testing.T) {
 	if only == "" {
 		return
 	}
-	for _, sc := range c10Scenarios() {
+	scs := c10Scenarios()
+	var prefix []int
+	if strings.HasSuffix(only, ".json") {
+		b, _ := os.ReadFile(only)
+		var rf struct {
+			Case hpScenario `json:"case"`
+		}
+		if err := stdjson.Unmarshal(b, &rf); err != nil {
+			t.Fatal(err)
+		}
+		scs = []hpScenario{rf.Case}
+		prefix = rf.Case.Choices
+		only = rf.Case.Name
+	}
+	for _, sc := range scs {
 		if sc.Name != only {
 			continue
 		}
@@ -26,7 +41,7 @@ func TestVerifDebugC10(t *testing.T) {
 		var run *hpRun
 		last := map[string]int64{}
 		hpRunHook = func(h *hpRun) { run = h }
-		vrt.Explore(vrt.Options{Replay: true, Delay: true, MaxSteps: 200000, Monitor: func() {
+		vrt.Explore(vrt.Options{Replay: true, Prefix: prefix, Delay: true, MaxSteps: 200000, Monitor: func() {
 			if run == nil || run.cm == nil {
 				return
 			}
